@@ -68,6 +68,7 @@ def run(ctx, R):
     rtpreserve.rule_const(ctx, R, 'rvv')
     aeshw.rule_rvv_jit_vlen(ctx, R)
     x86loop.rule_loopstore(ctx, R)
+    x86loop.rule_loopload(ctx, R)
     rtpreserve.rule_store_order(ctx, R, 'a64')
     rtpreserve.rule_store_order(ctx, R, 'rv64')
     a64sem.rule_immhelp(ctx, R)
